@@ -247,6 +247,19 @@ func genCase(t *rapid.T) Case {
 				m.linkUp[lkey(e[0], e[1])] = false
 			}
 			cnt := rapid.SampledFrom([]int{40, 99, 100, 101, 102, 103, 120}).Draw(t, "burstCnt")
+			// now and then the bursting router has a big prefix table of its own (hundreds of prefixes) and
+			// the burst is longer: how often a router publishes a snapshot of its table may depend on the
+			// table's size, while its peers decide by a fixed lag whether to ask for one (seeded C19-r9-2:
+			// a snapshot interval of half the table size, so that a peer more than 100 operations behind is
+			// handed a snapshot that is itself more than 100 operations old, again and again)
+			bigOdds := 11
+			if evid.Thorough() {
+				bigOdds = 5
+			}
+			if rapid.IntRange(0, bigOdds).Draw(t, "bigTable") == 0 {
+				c.Steps = append(c.Steps, Step{Evs: []Ev{{K: "bulk", A: x, Cnt: rapid.SampledFrom([]int{230, 350}).Draw(t, "bulkCnt")}}})
+				cnt = rapid.SampledFrom([]int{104, 130, 150}).Draw(t, "bigBurstCnt")
+			}
 			s2 := Step{Evs: []Ev{{K: "burst", A: x, Cnt: cnt}}}
 			for j := 0; j < cnt; j++ {
 				m.ann[x][j%3] = !m.ann[x][j%3]
